@@ -18,19 +18,21 @@ DRef(a) == [t |-> "dict", addr |-> a]
 Heap0 == << [t |-> "list", items |-> <<HInt(1)>>],
             [t |-> "list", items |-> <<LRef(1), HStr(<<97>>)>>],
             [t |-> "dict", items |-> << <<<<97>>, HInt(1)>> >>],
-            [t |-> "dict", items |-> << <<<<107>>, DRef(3)>>, <<<<108>>, LRef(1)>> >>] >>
+            [t |-> "dict", items |-> << <<<<107>>, DRef(3)>>, <<<<108>>, LRef(1)>> >>],
+            [t |-> "list", items |-> <<>>],
+            [t |-> "dict", items |-> <<>>] >>
 \* "__class__", "{0.__class__}", "%s"
 sClass == <<95, 95, 99, 108, 97, 115, 115, 95, 95>>
 sFmt == <<123, 48, 46, 95, 95, 99, 108, 97, 115, 115, 95, 95, 125>>
 sPct == <<37, 115>>
-Names0 == [n1 |-> [l1 |-> LRef(1), l2 |-> LRef(2), d1 |-> DRef(3), d2 |-> DRef(4), sc1 |-> HStr(sClass), sf |-> HStr(sFmt), sp |-> HStr(sPct),
+Names0 == [n1 |-> [l0 |-> LRef(5), d0 |-> DRef(6), s0 |-> HStr(<<>>), l1 |-> LRef(1), l2 |-> LRef(2), d1 |-> DRef(3), d2 |-> DRef(4), sc1 |-> HStr(sClass), sf |-> HStr(sFmt), sp |-> HStr(sPct),
                    n1 |-> HInt(1), f15 |-> [t |-> "float", dec |-> [sign |-> 0, digs |-> <<1, 5>>, exp |-> -1], repr |-> <<49, 46, 53>>],
                    big |-> [t |-> "int", sign |-> 0, digs |-> [i \in 1..40 |-> 9]]]]
 V(n) == NName(n)
 Args == {V("l1"), V("l2"), V("d1"), V("d2"), V("sc1"), V("sf"), V("sp"), V("n1"), V("f15"), V("big"), NVal(VNone), NVal(VBool(TRUE)),
          NVal(VNum(0)), NUn("-", NVal(VNum(1))), NVal(VStr(<<>>)), NLambda(<<"v">>, V("v")), V("len"), V("str"), V("dict"),
          NIndex(V("l2"), NSlice(NVal(VNone), NVal(VNum(1)), NVal(VNone))), NList(<<>>), NCall("dict", <<>>)}
-Data == {V("l1"), V("l2"), V("d1"), V("d2"), V("sc1"), V("sf"), V("n1")}
+Data == {V("l1"), V("l2"), V("d1"), V("d2"), V("sc1"), V("sf"), V("n1"), V("l0"), V("d0"), V("s0")}
 \* index tables instead of sets of trees: TLC normalises (sorts) every set it builds, and sorting 17000 trees
 \* took minutes; sequences of builtin names and small argument trees are cheap
 BSeq == SetToSeq(BuiltinNames \ Relational)
